@@ -97,14 +97,31 @@ package variants
 //@ # C19 for the aggregate writer: every failed Write is reported on cErr and the done signal is withheld.
 //@ func AggregateWriteVariants
 //@   modifies w, cErr, cWriteDone
+//@   ghost K Variant = arbitrary
+//@   ghost gOcc int = 0
+//@   after assign:Vskinny#1: do gOcc = gOcc + ite(Vskinny == K, 1, 0)
 //@   loop 1:
 //@     invariant !failed(w) && len(sent(cErr)) == 0 && len(sent(cWriteDone)) == 0 && len(written(w)) == 1
+//@     invariant [c13.counter] counter == float64(count(t, 0, range_i, recv(cVariants)[t].Queryname != refID))
+//@     invariant [c13.count] gOcc >= 0 && in(propMap, K) == (gOcc > 0) && propMap[K] == float64(gOcc)
 //@   loop 2:
 //@     invariant !failed(w) && len(sent(cErr)) == 0 && len(sent(cWriteDone)) == 0 && len(written(w)) == 1
+//@     invariant [c13.counter] counter == float64(count(t, 0, range_i1 + 1, recv(cVariants)[t].Queryname != refID))
+//@     invariant [c13.count] gOcc >= 0 && in(propMap, K) == (gOcc > 0) && propMap[K] == float64(gOcc)
 //@   loop 3:
-//@     invariant !failed(w) && len(sent(cErr)) == 0 && len(sent(cWriteDone)) == 0 && len(written(w)) == 1
+//@     invariant !failed(w) && len(sent(cErr)) == 0 && len(sent(cWriteDone)) == 0 && len(written(w)) == 1 && freshslice(order)
+//@     invariant len(order) == range_i && forall(j, 0, range_i, order[j] == mapkey(j) && in(propMap, order[j]))
 //@   loop 4:
 //@     invariant !failed(w) && len(sent(cErr)) == 0 && len(sent(cWriteDone)) == 0
+//@     invariant len(written(w)) == 1 + count(k, 0, range_i, !(propMap[order[k]] / counter < threshold))
+//@   after call:SliceStable#1: assert [keys.permuted] forall(j, 0, len(order), 0 <= sortperm(j) && sortperm(j) < len(order) && in(propMap, order[j]))
+//@   # C12: the row order does not depend on the map's iteration order: the comparator decides every pair of sorted rows
+//@   # except rows with identical mutation text
+//@   after call:SliceStable#1: assert [c12.total] forall(a, 0, len(order), forall(b, a + 1, len(order), sortless(a, b) || order[a].Representation == order[b].Representation))
+//@   after call:SliceStable#1: assert [c13.bypos] forall(a, 0, len(order), forall(b, a + 1, len(order), order[a].Position <= order[b].Position))
+//@   after call:Write#2: assert [row] !(propMap[V] / counter < threshold) && written(w)[len(written(w))-1] == V.Representation + "," + fmtfloat(propMap[V] / counter) + "\n"
+//@   after call:Write#2: assert [c13.freq] implies(V == K, gOcc > 0 && written(w)[len(written(w))-1] == K.Representation + "," + fmtfloat(float64(gOcc) / float64(count(t, 0, len(recv(cVariants)), recv(cVariants)[t].Queryname != refID))) + "\n")
+//@   before send#4: assert [c13.rows] !failed(w) && len(written(w)) == 1 + count(k, 0, len(order), !(propMap[order[k]] / counter < threshold))
 //@   ensures [c19.reported] implies(failed(w), len(sent(cErr)) >= 1 && len(sent(cWriteDone)) == 0)
 //@   ensures [c12.done] implies(!failed(w) && len(sent(cErr)) == 0, len(sent(cWriteDone)) == 1)
 
